@@ -227,7 +227,7 @@ def streams(tier, rng):
     yield "exh_nak_segment_counts", "exact", cases
     # 2b. size sweep: every number of segment requests 0..100; then the counts that put the packet length next to
     #     every multiple of 512 octets up to 8 KiB (32-bit offsets) / 16 KiB (64-bit); thorough: every count up to
-    #     1100.  (The model's pack is quadratic in the count: beyond 100 only pack, not the round trip.)
+    #     300, every eighth up to 1100.  (The model's pack is quadratic in the count: beyond 100 only pack, not the round trip.)
     cases = []
     for n in range(0, 101):
         if big or n <= 40 or n % 2 == 0:
@@ -240,9 +240,9 @@ def streams(tier, rng):
             if j in (2, 4, 8):
                 cases.append((1374, a + [[]]))
     if big:
-        for n in range(101, 1101):
+        for n in list(range(101, 301)) + list(range(304, 1101, 8)):
             a = _rand_pdu(rng, n)
-            cases.append((1374, a + [[]]) if n % 8 == 0 else (1371, a))
+            cases.append((1374, a + [[]]) if n % 64 == 0 or n <= 300 and n % 8 == 0 else (1371, a))
     yield "exh_sizes_nak_segment_requests", "exact", cases
     # 3. offsets at and beyond the 32/64-bit range in every position
     cases = []
@@ -278,7 +278,7 @@ def streams(tier, rng):
     # 5. targeted malformed: every truncation; substitutions in header / length / directive octets;
     #    length field set to other values (CRC made right for the altered PDU)
     cases = []
-    for _ in range(300 if big else 70):
+    for _ in range(300 if big else 58):
         a = _rand_pdu(rng, rng.choice([0, 1, 2, 3]))
         p = lay(a)
         hl = 4 + 2 * a[0][1] + a[0][5]
@@ -378,7 +378,7 @@ def streams(tier, rng):
     # 9b. C04: CRC-flagged packed PDUs with every single-bit flip and bursts of 2..16 bits at every bit offset
     #     outside the length-determining octets 1..3 and the CRC flag bit
     cases = []
-    for _ in range(40 if big else 5):
+    for _ in range(40 if big else 4):
         a = _rand_pdu(rng, rng.choice([0, 1, 2]), crc=1)
         p = lay(a)
         nbits = 8 * len(p)
